@@ -90,6 +90,7 @@ func VerifC12_Service() {
 			verifPrint(what)
 		}
 		verifAssert(!panicked, "the prepare-for-zero-height step does not abort")
+		verifAssert(e.reqEscrow().Sign() == 0, "after the prepare-for-zero-height step nothing is left in the request escrow (fees of in-flight requests back with the consumer, earned fees paid out)")
 	}
 	g := ExportGenesis(e.ctx, e.k)
 	verr := types.ValidateGenesis(*g)
